@@ -1569,9 +1569,39 @@ package ion
 //@ func (*Encoder).encodePtr
 //@ trusted thin: called by contract (recursive with encodeValue)
 //@ modifies *
-//@ func (*Encoder).encodeStruct
-//@ trusted thin: called by contract (reflection-heavy, not under contract)
+//@ func fieldsFor
+//@ trusted thin: called by contract (field discovery by reflection, not under contract)
+//@ modifies nothing
+//@ func emptyValue
+//@ trusted thin: called by contract
+//@ modifies nothing
+//@ func (*Encoder).encodeTimestamp
+//@ trusted thin: called by contract
 //@ modifies *
+//@ func (*Encoder).encodeTimeDate
+//@ trusted thin: called by contract
+//@ modifies *
+//@ func (*Encoder).encodeDecimal
+//@ trusted thin: called by contract
+//@ modifies *
+//@ func (*Encoder).encodeBigInt
+//@ trusted thin: called by contract
+//@ modifies *
+//@ func (*Encoder).encodeWithAnnotation
+//@ trusted thin: called by contract
+//@ modifies *
+
+// The special struct types are recognised by type identity and never written as structs (C16).
+//@ func (*Encoder).encodeStruct
+//@ requires m.w != nil
+//@ modifies *
+//@ invariant loop0 true
+//@ invariant loop1 true
+//@ atcall[C16] Writer.BeginStruct :: Writer :: v.Type() != timestampType && v.Type() != nativeTimeType && v.Type() != decimalType && v.Type() != bigIntType
+//@ atcall[C16] (*Encoder).encodeTimestamp v.Type() == timestampType
+//@ atcall[C16] (*Encoder).encodeTimeDate v.Type() == nativeTimeType
+//@ atcall[C16] (*Encoder).encodeDecimal v.Type() == decimalType
+//@ atcall[C16] (*Encoder).encodeBigInt v.Type() == bigIntType
 //@ func (*Encoder).encodeMap
 //@ trusted thin: called by contract (reflection-heavy, not under contract)
 //@ modifies *
